@@ -15,10 +15,46 @@ it with the congruence closure, reusable step lemmas are proved for every `Q`.
 namespace DarkluaModel.Sem.Heap
 variable {N : NumOps}
 
-abbrev CellRel := Nat → Nat → Prop
-def CellRel.le (β β' : CellRel) : Prop := ∀ a b, β a b → β' a b
-theorem CellRel.le_refl (β : CellRel) : β.le β := fun _ _ h => h
-theorem CellRel.le_trans {a b c : CellRel} (h1 : a.le b) (h2 : b.le c) : a.le c := fun _ _ h => h2 _ _ (h1 _ _ h)
+/-- a partial injection between cell ids together with a FRONTIER `(L, L')`: an extension may only add
+pairs at or beyond the frontier, so a cell below it that is unrelated stays unrelated forever (this is
+what lets one side write to a local the other side does not have, after arbitrary code has run) -/
+structure CellRel (N : NumOps) where
+  r : Nat → Nat → Prop
+  L : Nat := 0
+  L' : Nat := 0
+  /-- pinned right cells: one-sided cells (related to nothing) with a known content; related code never
+  writes them, their owner may (`SRel.setCellRight` updates the pin) -/
+  pins : List (Nat × Val N) := []
+
+instance {N : NumOps} : CoeFun (CellRel N) (fun _ => Nat → Nat → Prop) := ⟨CellRel.r⟩
+
+structure CellRel.le (β β' : CellRel N) : Prop where
+  sub : ∀ a b, β a b → β' a b
+  fl : β.L ≤ β'.L
+  fr : β.L' ≤ β'.L'
+  fresh : ∀ a b, β' a b → β a b ∨ (β.L ≤ a ∧ β.L' ≤ b)
+  pins : ∀ p ∈ β.pins, p ∈ β'.pins
+
+theorem CellRel.le_refl (β : CellRel N) : β.le β :=
+  ⟨fun _ _ h => h, Nat.le_refl _, Nat.le_refl _, fun _ _ h => .inl h, fun _ h => h⟩
+theorem CellRel.le_trans {a b c : CellRel N} (h1 : a.le b) (h2 : b.le c) : a.le c :=
+  ⟨fun _ _ h => h2.sub _ _ (h1.sub _ _ h), Nat.le_trans h1.fl h2.fl, Nat.le_trans h1.fr h2.fr, fun x y h => by
+    rcases h2.fresh x y h with h | h
+    · exact h1.fresh x y h
+    · exact .inr ⟨Nat.le_trans h1.fl h.1, Nat.le_trans h1.fr h.2⟩, fun p hp => h2.pins p (h1.pins p hp)⟩
+
+/-- a cell on the right that is below the frontier and unrelated: no extension ever relates it -/
+theorem CellRel.le.protectedRight {β β' : CellRel N} (h : β.le β') {c' : Nat} (hlt : c' < β.L')
+    (hu : ∀ a, ¬ β a c') : ∀ a, ¬ β' a c' := fun a ha => by
+  rcases h.fresh a c' ha with h1 | h1
+  · exact hu a h1
+  · omega
+
+theorem CellRel.le.protectedLeft {β β' : CellRel N} (h : β.le β') {c : Nat} (hlt : c < β.L)
+    (hu : ∀ b, ¬ β c b) : ∀ b, ¬ β' c b := fun b hb => by
+  rcases h.fresh c b hb with h1 | h1
+  · exact hu b h1
+  · omega
 
 abbrev QRel := List DName → FnBody → FnBody → Prop
 
@@ -28,13 +64,26 @@ structure Cx where
   W : List String := []
   G : (N : NumOps) → List (String × Val N) := fun _ => []
   sub : ∀ N p, p ∈ G N → p.1 ∈ W := by intros; simp_all
+  /-- the class of dead sets for which links are required (default: all). With
+  `Dok D := no generated temporary is dead in D` a link may introduce a local and then reference it. -/
+  Dok : List DName → Prop := fun _ => True
+  /-- `true`: results are related up to budget exhaustion of the original (a timeout of the original is
+  related to anything) — for steps that remove or add calls / loops -/
+  upto : Bool := false
+  /-- watched globals that hold a closure with a known body and an empty captured environment
+  (e.g. `assert` bound to `function(...) return ... end` in a modified environment) -/
+  F : List (String × FnBody) := []
+  subF : ∀ p, p ∈ F → p.1 ∈ W := by intros; simp_all
+  /-- an assumption on the call handler (how closures run), available in every step; the final
+  theorems ask for it at every call level `callClosure ρ n` -/
+  CF : (N : NumOps) → CallFn N → Prop := fun _ _ => True
 
 /-- the empty context -/
 def Cx.none : Cx := {}
 
 /-- the two local environments agree (through `β`) on every name outside `D` -/
-def EnvRel (β : CellRel) (D : List DName) (l l' : List (String × Nat)) : Prop :=
-  ∀ n, DName.ref n ∉ D → OptRel β (lookupAssoc n l) (lookupAssoc n l')
+def EnvRel (β : CellRel N) (D : List DName) (l l' : List (String × Nat)) : Prop :=
+  ∀ n, DName.ref n ∉ D → OptRel β.r (lookupAssoc n l) (lookupAssoc n l')
 
 /-- `D'` extends `D` without watching more names -/
 def DExt (D D' : List DName) : Prop := (∀ x ∈ D, x ∈ D') ∧ (∀ n, DName.wat n ∈ D' → DName.wat n ∈ D)
@@ -55,13 +104,13 @@ theorem OptRel.imp {α β : Type} {R S : α → β → Prop} (h : ∀ a b, R a b
   | none, some _, hr => hr
   | some _, none, hr => hr
 
-theorem EnvRel.mono {β β' : CellRel} {D l l'} (h : EnvRel β D l l') (hβ : β.le β') : EnvRel β' D l l' :=
-  fun n hn => OptRel.imp hβ (h n hn)
+theorem EnvRel.mono {β β' : CellRel N} {D l l'} (h : EnvRel β D l l') (hβ : β.le β') : EnvRel β' D l l' :=
+  fun n hn => OptRel.imp hβ.sub (h n hn)
 
-theorem EnvRel.weaken {β : CellRel} {D D' l l'} (h : EnvRel β D l l') (hD : ∀ x ∈ D, x ∈ D') : EnvRel β D' l l' :=
+theorem EnvRel.weaken {β : CellRel N} {D D' l l'} (h : EnvRel β D l l') (hD : ∀ x ∈ D, x ∈ D') : EnvRel β D' l l' :=
   fun n hn => h n (fun hx => hn (hD _ hx))
 
-theorem EnvRel.cons {β : CellRel} {D l l'} (h : EnvRel β D l l') (n : String) {c c' : Nat} (hc : β c c') :
+theorem EnvRel.cons {β : CellRel N} {D l l'} (h : EnvRel β D l l') (n : String) {c c' : Nat} (hc : β c c') :
     EnvRel β D ((n, c) :: l) ((n, c') :: l') := by
   intro m hm
   simp only [lookupAssoc]
@@ -70,7 +119,7 @@ theorem EnvRel.cons {β : CellRel} {D l l'} (h : EnvRel β D l l') (n : String) 
   · exact h m hm
 
 /-- an extra binding on the left for a dead name -/
-theorem EnvRel.consLeft {β : CellRel} {D l l'} (h : EnvRel β D l l') (n : String) (c : Nat) (hn : DName.ref n ∈ D) :
+theorem EnvRel.consLeft {β : CellRel N} {D l l'} (h : EnvRel β D l l') (n : String) (c : Nat) (hn : DName.ref n ∈ D) :
     EnvRel β D ((n, c) :: l) l' := by
   intro m hm
   simp only [lookupAssoc]
@@ -78,7 +127,7 @@ theorem EnvRel.consLeft {β : CellRel} {D l l'} (h : EnvRel β D l l') (n : Stri
   · next heq => exact absurd (by rw [← (beq_iff_eq.mp heq)]; exact hn) hm
   · exact h m hm
 
-theorem EnvRel.consRight {β : CellRel} {D l l'} (h : EnvRel β D l l') (n : String) (c : Nat) (hn : DName.ref n ∈ D) :
+theorem EnvRel.consRight {β : CellRel N} {D l l'} (h : EnvRel β D l l') (n : String) (c : Nat) (hn : DName.ref n ∈ D) :
     EnvRel β D l ((n, c) :: l') := by
   intro m hm
   simp only [lookupAssoc]
@@ -88,15 +137,15 @@ theorem EnvRel.consRight {β : CellRel} {D l l'} (h : EnvRel β D l l') (n : Str
 
 /-- local environments: related outside the dead set; every watched global is recorded in `D`; no
 watched name is bound (on the left; hence, being related, on the right) -/
-structure LocOK (cx : Cx) (β : CellRel) (D : List DName) (l l' : List (String × Nat)) : Prop where
+structure LocOK (cx : Cx) (β : CellRel N) (D : List DName) (l l' : List (String × Nat)) : Prop where
   rel : EnvRel β D l l'
   dw : ∀ n ∈ cx.W, DName.wat n ∈ D
   nb : ∀ n, DName.wat n ∈ D → lookupAssoc n l = none ∧ lookupAssoc n l' = none
 
-theorem LocOK.mono {cx : Cx} {β β' : CellRel} {D l l'} (h : LocOK cx β D l l') (hβ : β.le β') : LocOK cx β' D l l' :=
+theorem LocOK.mono {cx : Cx} {β β' : CellRel N} {D l l'} (h : LocOK cx β D l l') (hβ : β.le β') : LocOK cx β' D l l' :=
   ⟨h.rel.mono hβ, h.dw, h.nb⟩
 
-theorem LocOK.weaken {cx : Cx} {β : CellRel} {D D' l l'} (h : LocOK cx β D l l') (hD : DExt D D') :
+theorem LocOK.weaken {cx : Cx} {β : CellRel N} {D D' l l'} (h : LocOK cx β D l l') (hD : DExt D D') :
     LocOK cx β D' l l' :=
   ⟨h.rel.weaken hD.1, fun n hn => hD.1 _ (h.dw n hn), fun n hn => h.nb n (hD.2 n hn)⟩
 
@@ -107,74 +156,91 @@ theorem lookup_cons_ne {α : Type} {n m : String} {c : α} {l : List (String × 
   · next heq => exact absurd (beq_iff_eq.mp heq).symm h
   · rfl
 
-theorem LocOK.cons {cx : Cx} {β : CellRel} {D l l'} (h : LocOK cx β D l l') (n : String) (hn : DName.wat n ∉ D)
+theorem LocOK.cons {cx : Cx} {β : CellRel N} {D l l'} (h : LocOK cx β D l l') (n : String) (hn : DName.wat n ∉ D)
     {c c' : Nat} (hc : β c c') : LocOK cx β D ((n, c) :: l) ((n, c') :: l') :=
   ⟨h.rel.cons n hc, h.dw, fun m hm => by
     have hne : m ≠ n := fun e => hn (e ▸ hm)
     rw [lookup_cons_ne hne, lookup_cons_ne hne]; exact h.nb m hm⟩
 
-theorem LocOK.consLeft {cx : Cx} {β : CellRel} {D l l'} (h : LocOK cx β D l l') (n : String) (c : Nat)
+theorem LocOK.consLeft {cx : Cx} {β : CellRel N} {D l l'} (h : LocOK cx β D l l') (n : String) (c : Nat)
     (hr : DName.ref n ∈ D) (hn : DName.wat n ∉ D) : LocOK cx β D ((n, c) :: l) l' :=
   ⟨h.rel.consLeft n c hr, h.dw, fun m hm => by
     have hne : m ≠ n := fun e => hn (e ▸ hm)
     rw [lookup_cons_ne hne]; exact h.nb m hm⟩
 
-theorem LocOK.consRight {cx : Cx} {β : CellRel} {D l l'} (h : LocOK cx β D l l') (n : String) (c : Nat)
+theorem LocOK.consRight {cx : Cx} {β : CellRel N} {D l l'} (h : LocOK cx β D l l') (n : String) (c : Nat)
     (hr : DName.ref n ∈ D) (hn : DName.wat n ∉ D) : LocOK cx β D l ((n, c) :: l') :=
   ⟨h.rel.consRight n c hr, h.dw, fun m hm => by
     have hne : m ≠ n := fun e => hn (e ▸ hm)
     rw [lookup_cons_ne hne]; exact h.nb m hm⟩
 
-structure CRel (Q : QRel) (cx : Cx) (β : CellRel) (c c' : Closure N) : Prop where
+structure CRel (Q : QRel) (cx : Cx) (β : CellRel N) (c c' : Closure N) : Prop where
   varargs : c.varargs = c'.varargs
   body : ∃ D, Q D c.body c'.body ∧ LocOK cx β D c.env c'.env
 
-theorem CRel.mono {Q : QRel} {cx : Cx} {β β' : CellRel} {c c' : Closure N} (h : CRel Q cx β c c') (hβ : β.le β') :
+theorem CRel.mono {Q : QRel} {cx : Cx} {β β' : CellRel N} {c c' : Closure N} (h : CRel Q cx β c c') (hβ : β.le β') :
     CRel Q cx β' c c' :=
   ⟨h.varargs, let ⟨D, hq, he⟩ := h.body; ⟨D, hq, he.mono hβ⟩⟩
 
-structure SRel (Q : QRel) (cx : Cx) (β : CellRel) (σ σ' : State N) : Prop where
+/-- the global `name` holds a closure with body `body` and an empty captured environment -/
+def FnGlobal {N : NumOps} (σ : State N) (name : String) (body : FnBody) : Prop :=
+  ∃ id clo, σ.getGlobal name = .fn id ∧ σ.closures[id]? = some clo ∧ clo.body = body ∧ clo.env = []
+
+structure SRel (Q : QRel) (cx : Cx) (β : CellRel N) (σ σ' : State N) : Prop where
   globals : σ'.globals = σ.globals
   tables : σ'.tables = σ.tables
   trace : σ'.trace = σ.trace
   /-- the facts about watched globals hold -/
   ginv : ∀ p ∈ cx.G N, σ.getGlobal p.1 = p.2
+  /-- the closure facts about watched globals hold (in the original's state) -/
+  finv : ∀ p ∈ cx.F, FnGlobal σ p.1 p.2
   inj : ∀ {a b a' b'}, β a b → β a' b' → (a = a' ↔ b = b')
   bound : ∀ {a b}, β a b → a < σ.cells.length ∧ b < σ'.cells.length
   cell : ∀ {a b}, β a b → σ'.cells[b]? = σ.cells[a]?
   closures : Forall2 (CRel Q cx β) σ.closures σ'.closures
+  /-- the frontier is at most the current allocation point -/
+  front : β.L ≤ σ.cells.length ∧ β.L' ≤ σ'.cells.length
+  /-- pinned right cells hold their value and are related to nothing -/
+  pin : ∀ p ∈ β.pins, σ'.cells[p.1]? = some p.2 ∧ ∀ a, ¬ β a p.1
 
 /-- relation on result payloads, indexed by the current injection -/
-abbrev ARel (α : Type) := CellRel → α → α → Prop
-def AEq {α : Type} : ARel α := fun _ a b => a = b
+abbrev ARel (N : NumOps) (α : Type) := CellRel N → α → α → Prop
+def AEq {α : Type} : ARel N α := fun _ a b => a = b
 
-def RRel (Q : QRel) (cx : Cx) (β : CellRel) {α : Type} (A : ARel α) (r r' : Res N α) : Prop :=
+def RRel (Q : QRel) (cx : Cx) (β : CellRel N) {α : Type} (A : ARel N α) (r r' : Res N α) : Prop :=
   match r, r' with
   | .ok a σ, .ok a' σ' => ∃ β', β.le β' ∧ A β' a a' ∧ SRel Q cx β' σ σ'
   | .err v σ, .err v' σ' => v = v' ∧ ∃ β', β.le β' ∧ SRel Q cx β' σ σ'
   | .timeout, .timeout => True
+  | .timeout, _ => cx.upto = true
   | _, _ => False
 
-variable {Q : QRel} {cx : Cx} {β : CellRel}
+variable {Q : QRel} {cx : Cx} {β : CellRel N}
 
-theorem RRel.ok {α : Type} {A : ARel α} {a a' : α} {σ σ' : State N} (ha : A β a a') (h : SRel Q cx β σ σ') :
+theorem RRel.ok {α : Type} {A : ARel N α} {a a' : α} {σ σ' : State N} (ha : A β a a') (h : SRel Q cx β σ σ') :
     RRel Q cx β A (.ok a σ) (.ok a' σ') := ⟨β, β.le_refl, ha, h⟩
 theorem RRel.okEq {α : Type} {a : α} {σ σ' : State N} (h : SRel Q cx β σ σ') :
     RRel Q cx β AEq (.ok a σ) (.ok a σ') := ⟨β, β.le_refl, rfl, h⟩
-theorem RRel.err {α : Type} {A : ARel α} {v : Val N} {σ σ' : State N} (h : SRel Q cx β σ σ') :
+theorem RRel.err {α : Type} {A : ARel N α} {v : Val N} {σ σ' : State N} (h : SRel Q cx β σ σ') :
     RRel Q cx β A (.err v σ : Res N α) (.err v σ') := ⟨rfl, β, β.le_refl, h⟩
-theorem RRel.errS {α : Type} {A : ARel α} {m : String} {σ σ' : State N} (h : SRel Q cx β σ σ') :
+theorem RRel.errS {α : Type} {A : ARel N α} {m : String} {σ σ' : State N} (h : SRel Q cx β σ σ') :
     RRel Q cx β A (errS m σ : Res N α) (errS m σ') := ⟨rfl, β, β.le_refl, h⟩
-theorem RRel.timeout {α : Type} {A : ARel α} : RRel Q cx β A (.timeout : Res N α) .timeout := trivial
+theorem RRel.timeout {α : Type} {A : ARel N α} : RRel Q cx β A (.timeout : Res N α) .timeout := trivial
 
 /-- a result related in an extension is related in the original injection -/
-theorem RRel.mono {α : Type} {A : ARel α} {β' : CellRel} {r r' : Res N α} (hβ : β.le β')
+theorem RRel.timeout_left {α : Type} {A : ARel N α} (hu : cx.upto = true) (r' : Res N α) :
+    RRel Q cx β A (.timeout : Res N α) r' := by
+  cases r' <;> simp only [RRel, hu]
+
+theorem RRel.mono {α : Type} {A : ARel N α} {β' : CellRel N} {r r' : Res N α} (hβ : β.le β')
     (h : RRel Q cx β' A r r') : RRel Q cx β A r r' := by
   cases r <;> cases r' <;> simp only [RRel] at h ⊢
   · obtain ⟨β2, h1, h2, h3⟩ := h; exact ⟨β2, CellRel.le_trans hβ h1, h2, h3⟩
   · obtain ⟨hv, β2, h1, h3⟩ := h; exact ⟨hv, β2, CellRel.le_trans hβ h1, h3⟩
+  · exact h
+  · exact h
 
-theorem RRel.bind {α γ : Type} {A : ARel α} {B : ARel γ} {r r' : Res N α} {f f' : α → State N → Res N γ}
+theorem RRel.bind {α γ : Type} {A : ARel N α} {B : ARel N γ} {r r' : Res N α} {f f' : α → State N → Res N γ}
     (h : RRel Q cx β A r r')
     (hf : ∀ β', β.le β' → ∀ a a', A β' a a' → ∀ σ σ', SRel Q cx β' σ σ' → RRel Q cx β' B (f a σ) (f' a' σ')) :
     RRel Q cx β B (r.bind f) (r'.bind f') := by
@@ -182,19 +248,23 @@ theorem RRel.bind {α γ : Type} {A : ARel α} {B : ARel γ} {r r' : Res N α} {
   · obtain ⟨β1, h1, h2, h3⟩ := h
     exact RRel.mono h1 (hf β1 h1 _ _ h2 _ _ h3)
   · exact h
+  · exact RRel.timeout_left h _
+  · exact RRel.timeout_left h _
   · trivial
 
-theorem RRel.bindEq {α γ : Type} {B : ARel γ} {r r' : Res N α} {f f' : α → State N → Res N γ}
+theorem RRel.bindEq {α γ : Type} {B : ARel N γ} {r r' : Res N α} {f f' : α → State N → Res N γ}
     (h : RRel Q cx β AEq r r')
     (hf : ∀ β', β.le β' → ∀ a σ σ', SRel Q cx β' σ σ' → RRel Q cx β' B (f a σ) (f' a σ')) :
     RRel Q cx β B (r.bind f) (r'.bind f') :=
   RRel.bind h fun β' hle a a' ha σ σ' hs => by cases ha; exact hf β' hle a σ σ' hs
 
 /-- change the payload relation -/
-theorem RRel.mapA {α : Type} {A B : ARel α} {r r' : Res N α} (h : RRel Q cx β A r r')
+theorem RRel.mapA {α : Type} {A B : ARel N α} {r r' : Res N α} (h : RRel Q cx β A r r')
     (hab : ∀ β', β.le β' → ∀ a a', A β' a a' → B β' a a') : RRel Q cx β B r r' := by
   cases r <;> cases r' <;> simp only [RRel] at h ⊢
   · obtain ⟨β1, h1, h2, h3⟩ := h; exact ⟨β1, h1, hab β1 h1 _ _ h2, h3⟩
+  · exact h
+  · exact h
   · exact h
 
 end DarkluaModel.Sem.Heap
